@@ -42,7 +42,8 @@ HC_TAG = ["HC", [E("title", True, [T("Tt")])]]
 HC_TXT = ["HC", [T("plain & text")]]
 ITEMS = [T("txt"), B([T("b")]), I([T("i")]), ["DI", D_A1], ["DI", D_A2], ["DI", D_URL], HC_TAG, HC_TXT,
          B([["DI", D_A1], I([["DI", D_URL], T("n")])]), ["X", B([T("xb"), ["DI", D_A2]])]]
-HEADKIDS = [E("title", True, [T("user title")]), ["DI", D_A2], E("link", True, [], [["rel", "x"]]), HC_TAG]
+HEADKIDS = [E("title", True, [T("user title")]), ["DI", D_A2], E("link", True, [], [["rel", "x"]]), HC_TAG,
+            E("meta", True, [], [["charset", "iso-8859-1"]])]
 ATTRS = [[], [["lang", "en"]], [["class_", "k"]]]
 PREFIXES = ["lib", None, "a/b"]
 
@@ -209,10 +210,22 @@ def fn(case):
         doc = HTMLDocument(**kw)
         for o in objs:
             doc.append(o)
-    else:
+    elif mode == "ctor+append":
         doc = HTMLDocument(*objs[:1], **kw)
         if objs[1:]:
             doc.append(*objs[1:])
+    elif mode == "render-append-render":
+        # history: render once before the rest of the content is appended
+        doc = HTMLDocument(*objs[:1], **kw)
+        doc.render()
+        doc.render(lib_prefix=None)
+        if objs[1:]:
+            doc.append(*objs[1:])
+    else:
+        # history: empty document rendered first, then everything appended
+        doc = HTMLDocument(**kw)
+        doc.render()
+        doc.append(*objs) if objs else None
     r = doc.render(lib_prefix=prefix, include_version=incv)
     exp_html, resolved = ref_document(content, attrs, prefix, incv)
     if r["html"] != exp_html:
@@ -257,7 +270,8 @@ def plan(tier):
     htmlv = html_variants(items)
     content = Alt(frag, body, htmlv)
     if tier == "quick":
-        cfg = Prod(Const(["ctor", "append"]), Const(ATTRS), Const(["lib", None]), Const([True]))
+        cfg = Prod(Const(["ctor", "append", "render-append-render", "render-empty-then-append"]), Const(ATTRS[:2]),
+                   Const(["lib", None]), Const([True]))
         cfg2 = Prod(Const(["ctor"]), Const(ATTRS[:2]), Const(PREFIXES), Const([True, False]))
         small = Alt(Seq(items, 0, 1), Map(Seq(items, 0, 1), lambda ks: [["E", "body", True, [], ks]]),
                     html_variants(Const(ITEMS[:4])))
@@ -269,7 +283,8 @@ def plan(tier):
                  space=Map(Prod(small, cfg2), lambda c: (c[0],) + tuple(c[1])),
                  note=f"{small.size} small contents x all lib_prefix x include_version"),
         ]
-    cfg = Prod(Const(["ctor", "append", "ctor+append"]), Const(ATTRS), Const(PREFIXES), Const([True, False]))
+    cfg = Prod(Const(["ctor", "append", "ctor+append", "render-append-render", "render-empty-then-append"]),
+               Const(ATTRS), Const(PREFIXES), Const([True, False]))
     return [dict(kind="space", name="contents-x-all-configs", fn=fn,
                  space=Map(Prod(content, cfg), lambda c: (c[0],) + tuple(c[1])),
                  note=f"{content.size} contents x 3 construction modes x html attrs x lib_prefix x include_version")]
